@@ -24,6 +24,7 @@ CLAIMED = {
  "C13": ("exploration", "4 C13", "the central simulation target: production connect_tcp/watchdog/read_timeout()/send() loop over simulated socket, channel, thread and virtual clock; seeded search over stall/drip phases x T/R x caller read histories x thread interleavings at every primitive; zero-margin virtual-time bounds, no-false-timeout, cut-body-never-complete and thread/socket census oracles."),
  "C14": ("exploration", "4 C14", "the finite matrix (cert chain kind x name x flags x root x route x flag placement = 576 cells) is walked completely by run index against rustls ServerConnection peers inside the simulated multi-party world, for both TLS back ends (two builds); reported as exploration because nothing beyond the matrix (schedules, faults) is searched - evidence marks the matrix as exhaustive. No schedule or fault decides this property; said so in DESIGN.md."),
  "C15": ("exploration", "4 C15", "seeded forms (adversarial data, sizes covering residues of the 8 KiB copy buffer) transferred under short-write/EINTR schedules; the de-chunked body is decoded by an independent multipart decoder. Mostly an input property; said so."),
+ "C16": ("exploration", "4 C16", "seeded search over operation histories on sessions/clones/builders/prepared requests executed by 1..3 simulated caller threads, against a record-copy reference model applied in actual execution order; every send observed behaviourally on the wire and on the virtual clock (timeouts as exact instants). Thread dimension = op-level interleavings only (no shared mutable state besides Arc counts) - stated."),
  "C17": ("exploration", "4 C17", "production happy::connect (threads, channel, recv_timeout, drain loop) over simulated resolver/sockets/clock; seeded search over address lists x accept/refuse/black-hole latencies x deadlines x thread interleavings; oracles on observables: start order and race-interval gaps (both bounds), success iff, winner accepted, time-to-success bound, error provenance, termination."),
  "C18": ("exploration", "4 C18", "bodies in 38 charsets (valid, truncated, damaged, random) x Content-Type/default-charset precedence x text APIs; the schedule-dependent half - text_reader equals whole-body decoding for every delivery split, chunking and caller read size down to 1 byte - is what the simulator decides; selection itself is a pure function (stated)."),
  "C19": ("exploration", "4 C19", "seeded search over pause points: the peer goes silent forever after a drawn prefix; virtual time makes 'a read that can be satisfied must not wait' an exact check (t_out == t_in) and 'send returns when the blank line arrives' an exact equality."),
